@@ -6,6 +6,7 @@
 //!                                  "leaves_match": bool, "nleaves": n, "nlex": n}
 //! `spans` {"text", "parser"}   -> {"ok": [[start, end], ...]} | {"err": offset}
 //! `loc`   {"text", "offsets"}  -> {"locs": [[offset, line, column, line_start, line_end], ...]}
+//! `errjs` {"code"}             -> {"js": JsFormat rendering of the error} | {"ok": null}
 use jrsonnet_ir::Source;
 use jrsonnet_rowan_parser::AstNode;
 use serde_json::{json, Value};
@@ -108,6 +109,30 @@ pub fn spans(req: &Value) -> Value {
 	json!({"ok": collect_spans(&dbg)})
 }
 
+fn guarded(f: fn(&Value) -> Value, req: &Value) -> Value {
+	match std::panic::catch_unwind(std::panic::AssertUnwindSafe(|| f(req))) {
+		Ok(v) => v,
+		Err(_) => json!({"panic": crate::util::LAST_PANIC
+			.with(|p| p.borrow_mut().take())
+			.unwrap_or_default()}),
+	}
+}
+
+/// `textall` {"text"} -> {"lex":.., "rowan":.., "ir":.., "peg":..}: the three text probes in one
+/// request, each under its own catch_unwind.
+pub fn textall(req: &Value) -> Value {
+	let mut peg = req.clone();
+	peg["parser"] = Value::String("peg".into());
+	let mut ir = req.clone();
+	ir["parser"] = Value::String("ir".into());
+	json!({
+		"lex": guarded(lex, req),
+		"rowan": guarded(rowan, req),
+		"ir": guarded(spans, &ir),
+		"peg": guarded(spans, &peg),
+	})
+}
+
 pub fn loc(req: &Value) -> Value {
 	let text = req["text"].as_str().unwrap_or("");
 	let offs: Vec<u32> = req["offsets"]
@@ -140,4 +165,24 @@ pub fn loc(req: &Value) -> Value {
 		})
 		.collect();
 	json!({ "locs": out })
+}
+
+/// Evaluate a snippet and render the error with `JsFormat` (the format libjsonnet's
+/// `jrsonnet_set_trace_format(vm, 1)` selects): "    at <desc> (<path>:<line>:<column>)".
+pub fn errjs(req: &Value) -> Value {
+	use jrsonnet_evaluator::{
+		trace::{JsFormat, PathResolver, TraceFormat},
+		State,
+	};
+	let code = req["code"].as_str().unwrap_or("").to_owned();
+	let mut sb = State::builder();
+	sb.context_initializer(jrsonnet_stdlib::ContextInitializer::new(
+		PathResolver::new_cwd_fallback(),
+	));
+	let s = sb.build();
+	let _g = s.enter();
+	match s.evaluate_snippet("<cmdline>".to_owned(), code.as_str()) {
+		Ok(_) => json!({"ok": null}),
+		Err(e) => json!({"js": JsFormat { max_trace: 20 }.format(&e).unwrap_or_default()}),
+	}
 }
